@@ -882,3 +882,22 @@ Proof. unfold is_scalar, known_nonchar, xmlstring_keeps, xml_char. lia. Qed.
 Lemma xmlstring_strips_only_invalid c :
   xmlstring_keeps c = false -> xml_char c = false.
 Proof. unfold xmlstring_keeps, xml_char. lia. Qed.
+
+Lemma finished_counts_events n evs :
+  finished_count (run_stats n evs) = len (finished_ids evs)
+  /\ initial_run_count (run_stats n evs) = n.
+Proof.
+  split; [apply finished_count_is_number_of_finished_events|apply initial_run_count_constant].
+Qed.
+
+Lemma failure_counts evs rep n :
+  junit_report evs = Some rep ->
+  count_if is_nonsuccess (test_cases rep) = failed_count (run_stats n evs)
+  /\ count_if is_nonsuccess (script_cases rep) = failed_script_count (run_stats n evs)
+  /\ count_if is_flaky_case (test_cases rep) = flaky (run_stats n evs).
+Proof.
+  intros H. repeat split.
+  - rewrite <- cnt_test_cases. exact (agree_failed evs rep n H).
+  - rewrite <- cnt_script_cases. exact (agree_failed_scripts evs rep n H).
+  - rewrite <- cnt_test_cases. exact (agree_flaky evs rep n H).
+Qed.
